@@ -24,6 +24,8 @@ m("C01-b", "C01", "libwallet/src/types.rs", "(self.status == OutputStatus::Unspe
 m("C01-c", "C01", "libwallet/src/internal/selection.rs", "if num_change_outputs == 0 || change < num_change_outputs as u64 {", "if change < num_change_outputs as u64 {", "C01.R1")
 m("C01-d", "C01", "libwallet/src/internal/selection.rs", "fn amount_plus_fee(amount: u64, fee: u64) -> Result<u64, Error> {\n\tamount.checked_add(fee).ok_or_else(|| {\n\t\tError::GenericError(\"Transaction amount is too large to add the fee\".to_owned())\n\t})\n}", "fn amount_plus_fee(amount: u64, fee: u64) -> Result<u64, Error> {\n\tOk(amount + fee)\n}", "C01.R1")
 m("C01-e", "C01", "libwallet/src/types.rs", "\t\t\t|| self.lock_height > current_height\n", "\t\t\t|| self.lock_height > current_height + 1\n", "C01.R")
+m("C01-g", "C01", "libwallet/src/internal/selection.rs", "\t\twhile total < amount_with_fee {", "\t\tif total < amount_with_fee {", "C01.R6")
+m("C01-f", "C01", "libwallet/src/internal/selection.rs", "\tif fixed_fee.map(|f| fee != f).unwrap_or(false) {", "\tif fixed_fee.map(|f| fee > f).unwrap_or(false) {", "C01.R5")
 # ---- C02
 m("C02-a", "C02", "libwallet/src/slate.rs", "\t\tself.check_fees()?;\n\t\t// build the final excess", "\t\t// build the final excess", "C02.R1")
 m("C02-b", "C02", "libwallet/src/slate.rs", "\t\tfinal_tx.kernels()[0].verify()?;\n", "\t\tlet _ = final_tx.kernels()[0].verify();\n", "C02.R1")
@@ -103,7 +105,11 @@ m("C19-a", "C19", "libwallet/src/internal/updater.rs", "\t\t\t\tif let Some(v) =
 m("C19-b", "C19", "libwallet/src/internal/updater.rs", "\t\t\t\tif let Some(v) = query_args.max_creation_timestamp {", "\t\t\t\tif let Some(v) = query_args.min_confirmed_timestamp {", "C19.R1")
 m("C19-c", "C19", "libwallet/src/internal/updater.rs", "\t\t\t.filter(|tx_entry| match parent_key_id {\n\t\t\t\tSome(k) => tx_entry.parent_key_id == *k,\n\t\t\t\tNone => true,\n\t\t\t})\n", "", "C19.R3")
 # ---- C20
-m("C20-a", "C20", "libwallet/src/api_impl/owner.rs", "\ttx::cancel_tx(&mut **w, keychain_mask, &parent_key_id, tx_id, tx_slate_id)", "\tlet r = tx::cancel_tx(&mut **w, keychain_mask, &parent_key_id, tx_id, tx_slate_id);\n\tr", "C20.R")
+m("C20-a", "C20", "libwallet/src/api_impl/owner.rs", "\tif !update_wallet_state(\n\t\twallet_inst.clone(),\n\t\tkeychain_mask,\n\t\tstatus_send_channel,\n\t\tfalse,\n\t)? {\n\t\treturn Err(Error::TransactionCancellationError(\n\t\t\t\"Can't contact running Grin node. Not Cancelling.\",\n\t\t));\n\t}\n\twallet_lock!(wallet_inst, w);\n\tlet parent_key_id = w.parent_key_id();\n\ttx::cancel_tx(&mut **w, keychain_mask, &parent_key_id, tx_id, tx_slate_id)", "\tlet snapshot = {\n\t\twallet_lock!(wallet_inst, w);\n\t\tupdater::retrieve_txs(&mut **w, tx_id, tx_slate_id, None, None, false)?\n\t};\n\tif !update_wallet_state(\n\t\twallet_inst.clone(),\n\t\tkeychain_mask,\n\t\tstatus_send_channel,\n\t\tfalse,\n\t)? {\n\t\treturn Err(Error::TransactionCancellationError(\n\t\t\t\"Can't contact running Grin node. Not Cancelling.\",\n\t\t));\n\t}\n\twallet_lock!(wallet_inst, w);\n\tlet parent_key_id = w.parent_key_id();\n\ttx::cancel_tx(&mut **w, keychain_mask, &parent_key_id, tx_id, tx_slate_id)?;\n\tfor mut t in snapshot {\n\t\tt.tx_type = TxLogEntryType::TxSentCancelled;\n\t\tlet mut batch = w.batch(keychain_mask)?;\n\t\tbatch.save_tx_log_entry(t, &parent_key_id)?;\n\t\tbatch.commit()?;\n\t}\n\tOk(())", "C20.R1")
+
+m("C20-b", "C20", "api/src/owner.rs", "\t\t\t\tlet tc = self.tor_config.lock().clone();\n\t\t\t\tlet tc = match tc {\n\t\t\t\t\tSome(mut c) => {\n\t\t\t\t\t\tc.skip_send_attempt = Some(skip_tor);", "\t\t\t\tlet tor_config_lock = self.tor_config.lock();\n\t\t\t\tlet tc = tor_config_lock.clone();\n\t\t\t\tlet tc = match tc {\n\t\t\t\t\tSome(mut c) => {\n\t\t\t\t\t\tc.skip_send_attempt = Some(skip_tor);", "C20.R2")
+m("C20-c", "C20", "controller/src/controller.rs", "\t\t\tlet mut shared_mask_ref = mask.lock();\n\t\t\t*shared_mask_ref = Some(sk);", "\t\t\tlet secp_inst = static_secp_instance();\n\t\t\tlet _secp = secp_inst.lock();\n\t\t\tlet mut shared_mask_ref = mask.lock();\n\t\t\t*shared_mask_ref = Some(sk);", "C20.R2")
+m("C20-d", "C20", "libwallet/src/api_impl/owner.rs", "pub fn check_ttl<'a, T: ?Sized, C, K>(w: &mut T, slate: &Slate) -> Result<(), Error>\nwhere\n\tT: WalletBackend<'a, C, K>,\n\tC: NodeClient + 'a,\n\tK: Keychain + 'a,\n{\n", "pub fn check_ttl<'a, T: ?Sized, C, K>(w: &mut T, slate: &Slate) -> Result<(), Error>\nwhere\n\tT: WalletBackend<'a, C, K>,\n\tC: NodeClient + 'a,\n\tK: Keychain + 'a,\n{\n\tlet secp_inst = crate::grin_util::static_secp_instance();\n\tlet _secp = secp_inst.lock();\n\tlet _ = crate::grin_util::static_secp_instance();\n", "C20.R2")
 
 
 def for_property(prop):
